@@ -69,7 +69,7 @@ FIXTURES = ["probe/fx", "probe/fx2/pkg", "probe/exp1/os", "probe/deep/fx", "prob
 TABLES = [
     # aliases that are proper string prefixes of the template's own imports (o/os, fm/fmt, github/github.com, contex/context)
     # must leave those alone; aliases EQUAL to a template import are the recorded finding D10 (C01) and are not used here
-    {"fx": "probe/fx", "deep": "probe/deep", "exp": "probe/exp1", "exp1": "probe/fx2", "p": "probe", "o": "probe/exp1/os", "pro": "probe/fx2", "x-y": "probe/x-y", "a.b": "probe/a.b/fx", "github": "probe/fx", "gp": "probe/gopkg"},
+    {"fx": "probe/fx", "deep": "probe/deep", "exp": "probe/exp1", "exp1": "probe/fx2", "p": "probe", "o": "probe/exp1/os", "pro": "probe/fx2", "x-y": "probe/x-y", "a.b": "probe/a.b/fx", "github": "probe/fx", "gp": "probe/gopkg", "Store": "probe/fx2/pkg", "V2": "probe/x-y"},
     {"fx": "probe/deep/fx", "f": "probe/fx", "a.b": "probe/a.b", "v2": "probe/x-y/v2", "fm": "probe/fx2/pkg", "probe": "probe/exp1", "contex": "probe/fx", "strcon": "probe/fx"},
     {},
 ]
@@ -161,7 +161,9 @@ def level_b(ctx):
     # package paths whose LAST element contains a dot (gopkg.in/yaml.v3 style) and aliases with dots, by every spelling, each in
     # every position kind (the spellings are rotated against the kinds)
     dotted = [(pth, sp) for pth in ("probe/gopkg/yaml.v3", "probe/a.b/fx") for sp in spellings(pth, TABLES[0])]
-    for rot in range(3 if ctx.quick else 9):
+    # … and aliases that start with an upper-case letter (an alias is an alias whatever it looks like)
+    dotted += [(pth, sp) for pth in ("probe/fx2/pkg", "probe/x-y/v2") for sp in spellings(pth, TABLES[0]) if sp.strip('"')[:1].isupper()]
+    for rot in range(len(dotted) if ctx.quick else 2 * len(dotted)):
         fixed = [dotted[(j + rot) % len(dotted)] for j in range(9)]
         cfg, used, expect = position_cfg(ctx.rng, TABLES[0], False, fixed=fixed)
         ops = [["counters"]] + [["param", p] for p in sorted(cfg.get("parameters", {}))] + [["get", s_] for s_ in cfg["services"] if not cfg["services"][s_].get("todo")] + [["counters"]]
